@@ -1,4 +1,4 @@
-import ScVerif.C05.Nested
+import ScVerif.C05.Frame
 import ScVerif.C05.Legacy
 import ScVerif.C06.Lemmas
 /-!
@@ -135,14 +135,73 @@ theorem C05_reset (S : Schema) (ty : Nat) (u : Updater) (dst src : Fields) (r : 
             | none => rw [hd] at h; cases h
             | some d' => rw [hd] at h; simp at h; rw [← h]; exact key _ _ hd
 
+/-- **C05_frame** (full strength for a non-nil update mask, at any depth).  For every schema, message
+type, writable mask, reset mask, non-empty update mask `M` (paths non-empty, no empty segments), stored
+message `dst` and written message `src`: every path `p` — through singular messages, at any depth —
+that is unrelated to every update path and to every reset path (none is a prefix of `p`, `p` is a
+prefix of none; for a leaf path this is `p ∉ ⟦M⟧`, `p ∉ ⟦R⟧`, and since `Validate` only accepts update
+paths inside `W`, `⟦M⟧∩⟦W⟧ = ⟦M⟧`) holds after the write exactly what it held before.
+Hypotheses that remain, all about the *representation* and satisfied by every message the harness
+serialises from a real protobuf message: keys are unique in the messages along `p` (`NoDupAlong`),
+along `p` the written message never has a non-message where the stored one has a message (`Agree`:
+both follow one schema), and no oneof assignment can displace a field of `p` (`NoDispAlong`; clearing
+the other members of a oneof is inherent in assigning one). -/
+theorem C05_frame (S : Schema) (ty : Nat) (u : Updater) (dst src : Fields) (r : Merged)
+    (m : Path) (ms : List Path) (p : Path)
+    (hM : u.update = some (m :: ms)) (hMc : Clean (m :: ms)) (hMn : NonNil (m :: ms))
+    (hp : p ≠ []) (hpM : Unrelated p (m :: ms))
+    (hR : ∀ R, u.reset = some R → Clean R ∧ Unrelated p R)
+    (hdisp : NoDispAlong S ty p)
+    (hnd : NoDupAlong p dst) (hns : NoDupAlong p src) (hag : Agree p dst src)
+    (h : merge S ty u dst src = some r) :
+    r.dst.getPath p = dst.getPath p := by
+  have hreset : ∀ d d', resetDst u d = some d' → d'.getPath p = d.getPath p := by
+    intro d d' hd'
+    unfold resetDst at hd'
+    cases hr : u.reset with
+    | none => rw [hr] at hd'; simp at hd'; rw [hd']
+    | some R =>
+      rw [hr] at hd'
+      obtain ⟨hRc, hRu⟩ := hR R hr
+      exact getPath_pruneMsg_misses p _ d d' (misses_nestedMask hRc hp hRu) hd'
+  unfold merge at h
+  by_cases hW : u.writable = some []
+  · simp only [hW, if_true, hM, reduceCtorEq, if_false] at h
+    cases hd' : resetDst u dst with
+    | none => rw [hd'] at h; cases h
+    | some d' => rw [hd'] at h; simp at h; rw [← h]; exact hreset _ _ hd'
+  · simp only [hW, if_false, hM] at h
+    split at h
+    · cases h
+    next src1 hf1 =>
+      -- the writable filter keeps the written message in shape
+      have hs1 := shape_filterMsg p _ dst src src1 hf1 hns hag
+      simp only [Option.getD_some] at h
+      have hne := nestedMask_not_empty hMc hMn (by simp)
+      have hmiss := misses_nestedMask hMc hp hpM
+      split at h
+      · cases h
+      next src2 hf2 =>
+        unfold filterMsg at hf2
+        simp only [hne, Bool.false_eq_true, if_false] at hf2
+        have hready := mergeReady_filterFields p _ dst src1 src2 hmiss hf2 hs1.1 hs1.2
+        have hs2 := noDupAlong_filterFields p _ src1 src2 hf2 hs1.1
+        have h2 := getPath_mergeFields S p ty dst src2 hready hdisp
+        have hn2 := noDupAlong_mergeFields S p ty dst src2 hnd hs2 hdisp hready
+        split at h
+        · cases h
+        next d3 hd3 =>
+          have h3 := getPath_pruneEmpty_misses p _ src2 _ d3 hmiss hn2 hd3
+          cases hd' : resetDst u d3 with
+          | none => rw [hd'] at h; cases h
+          | some d' => rw [hd'] at h; simp at h; rw [← h, hreset _ _ hd', h3, h2]
+
 /--
 Full-strength statement: `validate = ok → merge = some r → ∀ leaf path p ∉ ⟦M⟧∩⟦W⟧, p ∉ ⟦R⟧ →
 r.dst.getPath p = dst.getPath p`.  What is proved for all inputs is its instance for every path whose
 *top-level* field no update / reset path starts with (below); for a path under a field that update
-paths pass through, the per-pass facts at depth are proved for `fmutils.Prune`
-(`getPath_pruneMsg_misses`, used by the reset and nil-mask passes) but not yet for the composition
-with `proto.Merge` and `pruneEmpty` — that part of the frame clause rests on the K1/K2 ties and the
-path-by-path monitor (which no longer has any exemption there since 37d17a7).
+paths pass through see `C05_frame` above (non-nil update mask, any depth); for a nil update mask with
+nested writable paths the statement at depth rests on the K1/K2 ties and the path-by-path monitor.
 
 **C05_frame_toplevel.**  For every schema, message type, stored and written message, writable, reset
 and non-empty update mask (paths non-empty, without empty segments): a field `k` that is the first
@@ -289,6 +348,14 @@ example : NotDisplaced wSchema 0 "g" := by
       simp [Schema.fields, wSchema] at hm
       rcases hm with rfl | rfl <;> rfl
     simp [this]
+/-- The hypotheses of `C05_frame` hold for the nested path `f.d` under the update mask `{f.c}`. -/
+example : Unrelated ["f", "d"] [["f", "c"]] ∧ Clean [["f", "c"]] ∧ NonNil [["f", "c"]] := by decide
+example : NoDupAlong ["f", "d"] wStored ∧ NoDupAlong ["f", "d"] (.cons "g" (.sc "i9") .nil) ∧
+    Agree ["f", "d"] wStored (.cons "g" (.sc "i9") .nil) := by
+  refine ⟨?_, ?_, ?_⟩
+  · simp [NoDupAlong, wStored, Fields.keys, Fields.get]
+  · simp [NoDupAlong, Fields.keys, Fields.get]
+  · simp [Agree, Fields.get]
 /-- The former witnesses now behave: `{f.c}` without `f` in the written message clears only `f.c`. -/
 example : (merge wSchema 0 ⟨none, some [["f", "c"]], none⟩ wStored (.cons "g" (.sc "i9") .nil)).map (·.dst)
     = some (.cons "f" (.msg (.cons "d" (.sc "i2") .nil)) (.cons "g" (.sc "i7") .nil)) := by decide
